@@ -276,3 +276,111 @@ Theorem C04_ignored_bits_neutral :
     Inv s' A T own /\ (forall q, hw_idx q 0 <> 511 -> aspace s' T q = aspace s T q).
 Proof. exact or_upper_neutral. Qed.
 Print Assumptions C04_ignored_bits_neutral.
+
+(** * ONE refinement theorem for histories over the whole interface, on any number of address spaces
+
+    Vocabulary (Vmm/PtGlobal.v, Vmm/PtHist2.v):
+      [qop]        the requests, exactly:  QMap / QUnmap / QTranslate (the active space), QMapTemp (MapTemporary),
+                   QMapRegion (through the real EarlyReserveRegion cursor), QIdMapRegion, QPdtInit (PageDirectoryTable.Init
+                   of a fresh frame), QPdtMap / QPdtUnmap (PageDirectoryTable.Map / Unmap on ANY initialised table, active
+                   or not), QActivate, QArm (reserveZeroedFrame, which arms the zero-frame guard).
+                   [to_op] sends each to the operation of the executable model ([C04_histories_full_ops]).
+      [hist]       an adaptive history: the client sees the answer (error, value) of a request before it chooses the next
+                   one ([of_list] = a plain list of requests).
+      [ast]        the abstract machine: [am] root -> page -> option (frame, flags); [aact] the active root; [atlb] the log
+                   of TLB invalidations; [aslot] the PageDirectoryTable values the client holds; [alast] the reservation
+                   cursor; [aroots] the address spaces that exist; [afree] data frames; [aprot]/[azf] the zero-frame
+                   guard; [apool] the frames still owned by the physical allocator.
+      [AStep o r a a']  what request [o] answered with [r] does to the abstract machine.  The allocator may fail at any
+                   point of any request: every success case has a failure sibling, and [C04_full_failure] states
+                   exactly what a failed request may have changed.
+      [Rel s a g]  the concrete state [s] implements [a]: [g] is a ghost map table frame -> (root, path) under which
+                   every root in [aroots a] owns a well-formed tree (recursive entry, no sharing between or inside
+                   trees, allocator frames unused); [translation s R q = am a R (ixs q)] for EVERY root R and page q;
+                   the flush log, cursor, slots, guard agree; frames in [afree a] are in no tree.
+      [cstep_ok]   an operation on a table that is not the active one leaves the active root table bit-for-bit as it was.
+      [qsafe h a]  every request of [h] is inside the quantifier ([qdom]) in whatever abstract state the history reaches:
+                   pages outside slot 511, frames < 2^40, flag bits outside 12-51, slots initialised, Init only on a
+                   frame of [afree], region sizes < 2^64, reserveZeroedFrame only while the guard is not armed.
+    The model's [step] (the function that is extracted and run against the code) executes every request without a
+    stray access; the answers are those of the abstract machine; the final state again implements the abstract one;
+    data frames that stay data frames keep their contents. *)
+From FF Require Import Vmm.PtGlobal Vmm.PtHist2.
+
+Theorem C04_histories_full :
+  forall (h : hist) s a g,
+    Rel s a g -> qsafe h a ->
+    exists rs s' a' g',
+      Steps h s a rs s' a' /\ Rel s' a' g' /\
+      (forall F i, In F (afree a) -> In F (afree a') -> ent s' F i = ent s F i) /\ incl (aroots a) (aroots a').
+Proof. exact histories_full. Qed.
+Print Assumptions C04_histories_full.
+
+(** the operation set of [C04_histories_full], spelled out *)
+Theorem C04_histories_full_ops :
+  forall o : qop,
+    match o with
+    | QMap p f fl => to_op o = OMap p f fl
+    | QUnmap p => to_op o = OUnmap p
+    | QTranslate va => to_op o = OTranslate va
+    | QMapTemp f => to_op o = OMapTemp f
+    | QMapRegion f sz fl => to_op o = OMapRegion f sz fl
+    | QIdMapRegion f sz fl => to_op o = OIdMapRegion f sz fl
+    | QPdtInit k f => to_op o = OPdtInit k f
+    | QPdtMap k p f fl => to_op o = OPdtMap k p f fl
+    | QPdtUnmap k p => to_op o = OPdtUnmap k p
+    | QActivate k => to_op o = OPdtActivate k
+    | QArm => to_op o = OReserveZero
+    end.
+Proof. intros o. destruct o; reflexivity. Qed.
+Print Assumptions C04_histories_full_ops.
+
+(** a run is a run of the executable model ([run_hist] is [step] iterated), and it is unique *)
+Theorem C04_full_run_is_model_run :
+  forall h s a rs s' a', Steps h s a rs s' a' -> run_hist h s = Ok (rs, s').
+Proof. exact Steps_run. Qed.
+Print Assumptions C04_full_run_is_model_run.
+
+(** the boot state (one address space with nothing mapped but its recursive entry) implements the empty abstract
+    machine, so every safe history from boot runs and refines *)
+Theorem C04_histories_full_boot :
+  forall lo0 cnt0 last0 oracle free pool,
+    0 < cnt0 -> lo0 + cnt0 <= 2 ^ 40 -> NoDup (ofr oracle) ->
+    (forall f, In f oracle -> f <> 0 -> lo0 < f /\ f < lo0 + cnt0) ->
+    (forall F, In F free -> lo0 < F /\ F < lo0 + cnt0 /\ ~ In F oracle) ->
+    WFstart (if last0 =? 0 then vmm_tempMappingAddr else last0) -> incl oracle pool ->
+    forall h, qsafe h (a_boot lo0 (if last0 =? 0 then vmm_tempMappingAddr else last0) free pool) ->
+    exists rs s' a' g',
+      run_hist h (init_state lo0 cnt0 last0 oracle) = Ok (rs, s') /\
+      Steps h (init_state lo0 cnt0 last0 oracle) (a_boot lo0 (if last0 =? 0 then vmm_tempMappingAddr else last0) free pool) rs s' a' /\
+      Rel s' a' g'.
+Proof. exact boot_histories_full. Qed.
+Print Assumptions C04_histories_full_boot.
+
+(** what a failed request may have changed: no translation of any address space - except that the two region
+    operations keep the pages they mapped before the allocator failed (and MapRegion keeps its reservation); the
+    active root, the set of address spaces and the guard never change on failure.  (A failed or refused request on an
+    inactive table still flushes the patched slot twice; a failed Init forgets the slot; a failed reserveZeroedFrame
+    keeps the frame it was given, unprotected - see [AStep].) *)
+Theorem C04_full_failure :
+  forall o r a a',
+    AStep o r a a' -> fst r <> 0 ->
+    aact a' = aact a /\ aroots a' = aroots a /\ aprot a' = aprot a /\
+    match o with
+    | QMapRegion f sz fl =>
+        match reserve_spec (alast a) sz with
+        | Some (a0, _) => exists j, (j < N.to_nat (ceil_pages sz))%nat /\ a' = a_range (set_alast a a0) (aact a) (a0 / 4096) f fl j
+        | None => a' = a
+        end
+    | QIdMapRegion f sz fl => exists j, (j < N.to_nat (ceil_pages sz))%nat /\ a' = a_range a (aact a) f f fl j
+    | _ => forall R k, am a' R k = am a R k
+    end.
+Proof. exact astep_failure. Qed.
+Print Assumptions C04_full_failure.
+
+(** the pages a (possibly partial) region operation has mapped, in the vocabulary of [C04_mrange_pages] *)
+Theorem C04_full_region_pages :
+  forall fl R, N.testbit fl 0 = true -> forall j a p0 f0 R' k,
+    am (a_range a R p0 f0 fl j) R' k = if R' =? R then mrange (am a R) p0 f0 fl j k else am a R' k.
+Proof. exact a_range_am. Qed.
+Print Assumptions C04_full_region_pages.
